@@ -63,7 +63,7 @@ def fresh_reference(item) -> dict:
 def pool_items():
     from vf.checks import c10
 
-    prog = st.one_of(gen_prog.programs(max_stmts=20), gen_macro.macro_programs(single_file=True, max_stmts=25))
+    prog = st.one_of(gen_prog.programs(max_stmts=20, with_control=True), gen_macro.macro_programs(single_file=True, max_stmts=25, with_control=True))
     p_item = prog.map(lambda p: {"kind": "program", "prog": p})
 
     def mk_err(t):
